@@ -788,6 +788,16 @@ func TestVerifC01(t *testing.T) {
 		}
 		emitHist("fasthotstuff", 4, res.hist.spec, res, "script-fhs-vote-then-stale-report")
 	}
+	{
+		res, err := c01FastSwappedReports(7)
+		if err != nil {
+			t.Fatalf("world: %v", err)
+		}
+		if len(res.commits["r2n0"]) < 3 {
+			v.Oracle(false, "harness:fhs-swapped-reports-script-replica-2-does-not-commit", fmt.Sprintf("replica 2 committed %v", res.commits["r2n0"]), nil)
+		}
+		emitHist("fasthotstuff", 4, res.hist.spec, res, "script-fhs-swapped-reports")
+	}
 	for _, variant := range []string{"fhs-honest", "fhs-stale-highqc", "fhs-old-aggqc"} {
 		res, err := c01DirectedFast(variant, 7)
 		if err != nil {
@@ -1275,6 +1285,193 @@ func c01FastVoteThenStaleReport(seed int64) (*c01Result, error) {
 			_ = b7
 		}
 	}
+	fp, fq := f6, qcOf(f6)
+	for v := 7; v <= 9 && okf; v++ {
+		var nb *hotstuff.Block
+		nb, okf = proposeTo(hotstuff.View(v), fp.Hash(), fq, nil, h1, h3)
+		if okf {
+			fp, fq = nb, qcOf(nb)
+		}
+		timeouts()
+	}
+	return c01Finish(h, live, 0), nil
+}
+
+// c01FastSwappedReports (Fast-HotStuff): the signature under a timeout message must cover the
+// certificate it reports. The Byzantine leader reuses the timeout signatures of replicas 1 and 3
+// inside its own aggregate QC with the reported QC(b3) swapped for a same-block, same-view
+// certificate that does not verify; the highest VALID QC of the aggregate is then its own old
+// QC(b1), which justifies a fork below b3, a block replica 2 has committed.
+func c01FastSwappedReports(seed int64) (*c01Result, error) {
+	spec := wSpec{consensus: "fasthotstuff", n: 4, byz: []hotstuff.ID{4}, seed: seed}
+	for i := 0; i < 20; i++ {
+		spec.leaders = append(spec.leaders, 4)
+	}
+	w, err := newWorld(spec)
+	if err != nil {
+		return nil, err
+	}
+	h := newC01Hist(w, spec)
+	B := w.nodes[NodeID{ReplicaID: 4}]
+	var live []*wNode
+	for _, id := range w.order {
+		if nd := w.nodes[id]; !nd.byz {
+			live = append(live, nd)
+		}
+	}
+	for _, id := range w.order {
+		w.partition[id] = 0
+	}
+	flush := func() {
+		for guard := 0; len(w.pending) > 0 && guard < 20000; guard++ {
+			m := w.pending[0]
+			w.pending = w.pending[1:]
+			to := w.nodes[m.to]
+			if to.byz {
+				w.byzHandle(to, m.payload)
+				h.observe(nil)
+				continue
+			}
+			if p, ok := m.payload.(hotstuff.ProposeMsg); ok {
+				w.regProposal(&p)
+			}
+			to.eventLoop.AddEvent(m.payload)
+			w.drain(to)
+			h.observe(to)
+		}
+	}
+	timeouts := func() {
+		for _, nd := range live {
+			nd.eventLoop.AddEvent(hotstuff.TimeoutEvent{View: nd.viewStates.View()})
+			w.drain(nd)
+			h.observe(nd)
+		}
+		flush()
+	}
+	mkBatch := func(k int) *clientpb.Batch {
+		return &clientpb.Batch{Commands: []*clientpb.Command{{ClientID: 99, SequenceNumber: uint64(k), Data: []byte("byz")}}}
+	}
+	propose := func(view hotstuff.View, parent hotstuff.Hash, qc hotstuff.QuorumCert, agg *hotstuff.AggregateQC) (*hotstuff.Block, bool) {
+		b := hotstuff.NewBlock(parent, qc, mkBatch(int(view)+100), view, 4)
+		p := hotstuff.ProposeMsg{ID: 4, Block: b, AggregateQC: agg}
+		w.regProposal(&p)
+		B.blockchain.Store(b)
+		for _, to := range live {
+			w.byzSendTo(B, to, p)
+		}
+		flush()
+		if pc, err := B.auth.CreatePartialCert(b); err == nil {
+			B.votesSeen[b.Hash()] = append(B.votesSeen[b.Hash()], pc)
+		}
+		w.byzAssemble(B)
+		h.observe(nil)
+		for _, q := range w.qcs {
+			if q.BlockHash() == b.Hash() {
+				return b, true
+			}
+		}
+		return b, false
+	}
+	qcOf := func(b *hotstuff.Block) hotstuff.QuorumCert {
+		for _, q := range w.qcs {
+			if q.BlockHash() == b.Hash() {
+				return q
+			}
+		}
+		return hotstuff.QuorumCert{}
+	}
+	gen := hotstuff.GetGenesis()
+	genQC := B.viewStates.HighQC()
+	w.learnQC(genQC)
+	_ = propose
+	h1, h2, h3 := w.nodes[NodeID{ReplicaID: 1}], w.nodes[NodeID{ReplicaID: 2}], w.nodes[NodeID{ReplicaID: 3}]
+	proposeTo := func(view hotstuff.View, parent hotstuff.Hash, qc hotstuff.QuorumCert, agg *hotstuff.AggregateQC, tos ...*wNode) (*hotstuff.Block, bool) {
+		b := hotstuff.NewBlock(parent, qc, mkBatch(int(view)+100+10*len(tos)), view, 4)
+		p := hotstuff.ProposeMsg{ID: 4, Block: b, AggregateQC: agg}
+		w.regProposal(&p)
+		B.blockchain.Store(b)
+		for _, to := range tos {
+			w.byzSendTo(B, to, p)
+		}
+		flush()
+		if pc, err := B.auth.CreatePartialCert(b); err == nil {
+			B.votesSeen[b.Hash()] = append(B.votesSeen[b.Hash()], pc)
+		}
+		w.byzAssemble(B)
+		h.observe(nil)
+		for _, q := range w.qcs {
+			if q.BlockHash() == b.Hash() {
+				return b, true
+			}
+		}
+		return b, false
+	}
+	// the Byzantine replica's own, correctly self-signed timeout for a view, reporting an old QC
+	byzTimeout := func(view hotstuff.View, qc hotstuff.QuorumCert) (hotstuff.TimeoutMsg, bool) {
+		vs, err := B.auth.Sign(view.ToBytes())
+		if err != nil {
+			return hotstuff.TimeoutMsg{}, false
+		}
+		m := hotstuff.TimeoutMsg{ID: 4, View: view, SyncInfo: hotstuff.NewSyncInfoWith(qc), ViewSignature: vs}
+		ms, err := B.auth.Sign(m.ToBytes())
+		if err != nil {
+			return hotstuff.TimeoutMsg{}, false
+		}
+		m.MsgSignature = ms
+		w.regTimeout(m)
+		h.observe(nil)
+		return m, true
+	}
+	// views 1..4: b1 <- b2 <- b3 <- b4 for everybody
+	qc, parent := genQC, gen.Hash()
+	var blocks []*hotstuff.Block
+	ok := true
+	for v := 1; v <= 4 && ok; v++ {
+		var b *hotstuff.Block
+		b, ok = proposeTo(hotstuff.View(v), parent, qc, nil, h1, h2, h3)
+		if ok {
+			qc, parent = qcOf(b), b.Hash()
+			blocks = append(blocks, b)
+		}
+		timeouts()
+	}
+	if !ok || len(blocks) != 4 {
+		return c01Finish(h, live, 0), nil
+	}
+	b1, b3, b4 := blocks[0], blocks[2], blocks[3]
+	// view 5: b5 (QC b4) for replica 2 only: it commits b3
+	if _, ok5 := proposeTo(5, b4.Hash(), qcOf(b4), nil, h2); !ok5 {
+		_ = ok5 // b5 is not certified (only replica 2 and the leader voted); not needed below
+	}
+	timeouts()
+	// the leader takes the correctly signed view-5 timeouts of replicas 1 and 3 (they report QC(b3)),
+	// replaces the certificate they carry by one for the same block and view made of its own signature
+	// only, adds its own timeout reporting QC(b1), and builds an aggregate QC from the three
+	var junk hotstuff.QuorumCert
+	if pc, err := B.auth.CreatePartialCert(b3); err == nil {
+		junk = hotstuff.NewQuorumCert(pc.Signature(), b3.View(), b3.Hash())
+		h.observe(nil)
+	} else {
+		return c01Finish(h, live, 0), nil
+	}
+	bt, okt := byzTimeout(5, qcOf(b1))
+	var picked []hotstuff.TimeoutMsg
+	for _, t := range w.timeoutsSeen[5] {
+		if t.ID == 1 || t.ID == 3 {
+			t.SyncInfo = hotstuff.NewSyncInfoWith(junk)
+			picked = append(picked, t)
+		}
+	}
+	if !okt || len(picked) != 2 {
+		return c01Finish(h, live, 0), nil
+	}
+	agg, err := B.auth.CreateAggregateQC(5, append(picked, bt))
+	if err != nil {
+		return c01Finish(h, live, 0), nil
+	}
+	// view 6: a fork on b1, below the committed b3, justified by that aggregate QC, for replicas 1 and 3
+	f6, okf := proposeTo(6, b1.Hash(), qcOf(b1), &agg, h1, h3)
+	timeouts()
 	fp, fq := f6, qcOf(f6)
 	for v := 7; v <= 9 && okf; v++ {
 		var nb *hotstuff.Block
